@@ -127,9 +127,21 @@ def slice_index_space(ctx: Ctx, rule: str):
             elif all("valid_elements" in b for b in bases):
                 ctx.held(rule, where, bases[0][:80], "a collection indexed by valid-element position")
             elif any("counts_with_missings" in b or "raw_cube_array" in b for b in bases):
+                # every variant of the array must be restricted by a FANCY index of the valid-element offsets; a basic slice
+                # (`[:n]`, `[first:last + 1]`) of the raw axis keeps whatever missing element lies inside / ahead of the range
+                variants = res(node.value)
+                ranged = [_u(x)[:90] for v in variants for x in _ast.walk(v) if isinstance(x, _ast.Subscript) and isinstance(x.slice, _ast.Slice)
+                          and ("counts_with_missings" in _u(x.value) or "raw_cube_array" in _u(x.value)) and (x.slice.lower is not None or x.slice.upper is not None)]
+                fancy = [v for v in variants if any(isinstance(x, _ast.Subscript) and not isinstance(x.slice, _ast.Slice) and "valid_elements.element_idxs" in _u(x.slice) for x in _ast.walk(v))]
                 restricted = [b for b in bases if "valid_elements.element_idxs" in b]
-                if restricted:
+                if ranged:
+                    ctx.violated(rule, where, ranged[:2], "the array indexed by the valid-element offsets of the table dimension",
+                                 "a range of the raw table axis is the valid tables only while no missing element lies ahead of or inside it; slice_idx counts valid elements only")
+                elif restricted and fancy:
+                    # (the unrestricted variant is the 2-D case, where there is no table dimension to restrict)
                     ctx.held(rule, where, restricted[0][:110], "restricted to the valid table elements before the partition index is applied")
+                elif restricted:
+                    ctx.undecided(rule, where, "the valid-element offsets are mentioned but not used as a fancy index", "restricted by a fancy index of the valid-element offsets")
                 else:
                     ctx.violated(rule, where, bases[:2], "an array restricted to the valid elements of the table dimension",
                                  "the array still carries the missing elements of the table dimension; slice_idx counts valid elements only, so table k is another table when a missing element precedes")
@@ -251,7 +263,7 @@ def generic_lints(ctx: Ctx, rule: str = "lint", kinds=None, scope=None):
     from ..loader import AnalysisError
     from ..scope import in_scope
 
-    if L.self_check() != (16, 0) or L.orientation_self_check() != (1, 0):
+    if L.self_check() != (17, 0) or L.orientation_self_check() != (1, 0):
         raise AnalysisError(f"generic lints: the positive control is no longer recognised {L.self_check()} {L.orientation_self_check()}")
     n, hits = 0, []
     members = []
@@ -296,7 +308,7 @@ def generic_lints(ctx: Ctx, rule: str = "lint", kinds=None, scope=None):
     for where, kind, why in hits:
         ctx.violated(f"{rule}.{kind}", where, kind, "see cubeverif/lints.py", why)
     if not hits:
-        ctx.held(rule, "this property's code: floor division, int casts, identity with literals, unordered sets", f"{n} functions scanned, none found", "", "positive control: 16 of 16 recognised")
+        ctx.held(rule, "this property's code: floor division, int casts, identity with literals, unordered sets", f"{n} functions scanned, none found", "", "positive control: 17 of 17 recognised")
 
 
 # --------------------------------------------------------------------------- dependency footprints of the measures
@@ -1013,3 +1025,72 @@ def zip_pairing(ctx: Ctx, rule: str, short: str, cname: str):
         ctx.violated(rule, where, h, "both sequences are taken from the list in the same way", "a filtered-out item that is not the LAST one shifts every later pair: each later id is paired with the next item's value")
     if not hits:
         ctx.held(rule, f"{short}::{cname}", f"{n} member(s) zip sequences; none pairs a filtered with an unfiltered view of one list", "", "positive control recognised")
+
+
+# --------------------------------------------------------------------------- truth tests of stored measure values
+_FIELD_TRUTH_CONTROL = "class S:\n    def __init__(self, means):\n        self._means = means\n    def means(self):\n        return float(self._means) if self._means else None\n    def ok(self):\n        return None if self._means is None else float(self._means)\n"
+
+
+def _truth_tested(fn: ast.AST):
+    """Expressions used AS a truth value: if / while / conditional-expression tests, operands of and / or / not (Compare
+    nodes are comparisons, not truth tests of their operands)."""
+    out = []
+
+    def operands(t):
+        if isinstance(t, ast.BoolOp):
+            for v in t.values:
+                yield from operands(v)
+        elif isinstance(t, ast.UnaryOp) and isinstance(t.op, ast.Not):
+            yield from operands(t.operand)
+        else:
+            yield t
+
+    for n in ast.walk(fn):
+        if isinstance(n, (ast.If, ast.While, ast.IfExp)):
+            out += list(operands(n.test))
+        elif isinstance(n, ast.BoolOp):
+            out += [x for v in n.values[:-1] for x in operands(v)]  # `x or default`: x is truth-tested
+        elif isinstance(n, ast.comprehension):
+            for c in n.ifs:
+                out += list(operands(c))
+    return out
+
+
+def data_field_truthiness(ctx: Ctx, rule: str, short: str, cname: str, value_exprs=()):
+    """A measure VALUE (a mean, a count) of exactly 0 is a value: a bare truth test of a data field of the class - one stored
+    from a constructor parameter - or of one of `value_exprs` (`x if self._means else nan`, `self._means or nan`) reports
+    it as absent; on an array with several items it raises.  `is None` / `is not None` are the tests meant."""
+    from ..loader import AnalysisError
+    from ..stmts import resolver
+
+    ctl = ast.parse(_FIELD_TRUTH_CONTROL).body[0]
+    def scan(cnode, extra):
+        fields = set()
+        for f in cnode.body:
+            if isinstance(f, ast.FunctionDef) and f.name == "__init__":
+                params = {a.arg for a in f.args.args}
+                for a in ast.walk(f):
+                    if isinstance(a, ast.Assign) and isinstance(a.targets[0], ast.Attribute) and isinstance(a.targets[0].value, ast.Name) and a.targets[0].value.id == "self" and isinstance(a.value, ast.Name) and a.value.id in params:
+                        fields.add("self." + a.targets[0].attr)
+        targets = fields | set(extra)
+        hits, n = [], 0
+        for f in cnode.body:
+            if not isinstance(f, ast.FunctionDef) or f.name == "__init__":
+                continue
+            n += 1
+            res = resolver(f, multi=True)
+            for t in _truth_tested(f):
+                for v in res(t):
+                    if u(v) in targets:
+                        hits.append((f.name, u(t), u(v)))
+        return hits, n, sorted(targets)
+
+    if len(scan(ctl, ())[0]) != 1:
+        raise AnalysisError("data-field truthiness: the positive control is no longer recognised")
+    ci = ctx.repo.cls(short, cname)
+    hits, n, targets = scan(ci.node, value_exprs)
+    ctx.count(f"members of {cname} scanned for truth-tested values", n)
+    for member, text, val in hits:
+        ctx.violated(rule, f"{short}::{cname}.{member} [{text}]", f"truth test of {val}", "`is None` / `is not None`", "a value of exactly 0 (a mean of 0.0, a count of 0) is falsy: it is reported as absent / NaN")
+    if not hits:
+        ctx.held(rule, f"{short}::{cname}", f"{n} members; none of {targets} is tested for truth", "", "positive control recognised")
